@@ -30,7 +30,7 @@
 // After every path one compiled probe function observes the container(s):
 // Size() / Size(list:) / Size(named:), Members and Values (list in order, named
 // as a set), Member? and GetDefault for eleven keys, Find and Has? for every
-// value, seven range subscripts, for-in iteration, and equality (both
+// value, 29 range subscripts, for-in iteration, and equality (both
 // directions) with a container built directly from the model.
 package main
 
@@ -361,18 +361,29 @@ func applicable(path []int, e int) bool {
 // ---------------------------------------------------------------- probe
 
 type rangeT struct {
-	src     string
-	from    int
-	x       int
-	byLen   bool
-	hasFrom bool
+	src   string
+	from  int
+	x     int // to, or length when byLen
+	byLen bool
 }
 
-var ranges = []rangeT{
-	{"ob[0 .. 2]", 0, 2, false, true}, {"ob[1 .. -1]", 1, -1, false, true},
-	{"ob[-2 .. 9]", -2, 9, false, true}, {"ob[2 .. 1]", 2, 1, false, true},
-	{"ob[1 :: 2]", 1, 2, true, true}, {"ob[0 :: -1]", 0, -1, true, true},
-	{"ob[-1 :: 5]", -1, 5, true, true},
+const omitted = 1 << 40 // stands for an omitted bound ("to the end")
+
+var ranges []rangeT
+
+func defRanges() {
+	for _, from := range []int{-2, 0, 1, 2} {
+		for _, to := range []int{-1, 0, 1, 9} {
+			ranges = append(ranges, rangeT{fmt.Sprintf("ob[%d .. %d]", from, to), from, to, false})
+		}
+	}
+	for _, from := range []int{-1, 0, 1} {
+		for _, n := range []int{-1, 0, 2} {
+			ranges = append(ranges, rangeT{fmt.Sprintf("ob[%d :: %d]", from, n), from, n, true})
+		}
+	}
+	ranges = append(ranges, rangeT{"ob[1 ..]", 1, omitted, false}, rangeT{"ob[-1 ..]", -1, omitted, false},
+		rangeT{"ob[.. 1]", 0, 1, false}, rangeT{"ob[:: 1]", 0, 1, true})
 }
 
 // modelRange is the documented range semantics (Subscript.md)
@@ -400,6 +411,9 @@ func modelRange(list []string, r rangeT) []string {
 		if to < 0 {
 			to += n
 		}
+	}
+	if r.x == omitted {
+		to = n
 	}
 	if to < from {
 		to = from
@@ -814,6 +828,7 @@ func setup() {
 			goVal[v] = compile.Constant(v)
 		}
 		defEvents()
+		defRanges()
 		defProbe()
 	})
 }
@@ -821,9 +836,10 @@ func setup() {
 func run(c *lib.Ctx) {
 	setup()
 	debug.SetGCPercent(200)
-	depth := lib.Pick(c, 4, 5)
+	// depth per root: Object(), Record()
+	depths := lib.Pick(c, []int{4, 3}, []int{5, 5})
 	c.Set("events", len(events))
-	c.Set("max_depth", depth)
+	c.Set("max_depth", depths)
 	c.Set("observations_per_probe", len(probeLabels))
 	names := []string{}
 	for _, e := range events {
@@ -833,7 +849,7 @@ func run(c *lib.Ctx) {
 	sortPhase(c)
 	completed := map[string]int{}
 	for root := range rootNames {
-		completed[rootNames[root]] = bfs(c, root, depth)
+		completed[rootNames[root]] = bfs(c, root, depths[root])
 		if c.Expired() {
 			break
 		}
